@@ -22,6 +22,7 @@ RULE = (
     "unchanged; (c) every single-byte alteration (every position of IV, ciphertext, MAC of the wrapped key and of "
     "encryption.data, and of the salt; XOR 1 / 0x80 / drawn) -> raises and attr unchanged. Non-trivial = >= 2 inner entries and "
     "at least one tamper evaluated; distinct by spec."
+    ' Passphrases with combining marks / compatibility code points, their NFC/NFD/NFKC/NFKD/casefolded forms tried as wrong passphrases; the dictionary obtained before unlocking must show the unlocked entries.'
 )
 ASSUMPTIONS = [
     "tampering is applied to the decoded binary fields and re-encoded (base64/URL decoders' tolerance is not part of the property)",
